@@ -34,7 +34,8 @@ CLASS_ITEMS = [
 
 
 class Gen:
-    def __init__(self, rng, budget, with_access=True, item_rate=0.6):
+    def __init__(self, rng, budget, with_access=True, item_rate=0.6, cross=False):
+        self.cross = cross
         self.rng = rng
         self.n = 0
         self.lines = []
@@ -52,6 +53,8 @@ class Gen:
         return len(self.lines)
 
     def item(self, in_class):
+        if self.cross and self.rng.random() < 0.35:
+            in_class = not in_class          # deliberately misplaced item (mutated-input stream)
         tmpl, cb = self.rng.choice(CLASS_ITEMS if in_class else NS_ITEMS)
         self.emit(tmpl.format(n=self.fresh()))
         if cb:
@@ -78,7 +81,7 @@ class Gen:
         rng = self.rng
         n = self.fresh()
         choices = ["class", "class", "struct", "union"]
-        if ctx != "class":
+        if ctx != "class" or self.cross:
             choices += ["ns", "ns", "ns_anon", "ns_nested", "ns_inline", "extern"]
         k = rng.choice(choices)
         if k.startswith("ns"):
